@@ -365,13 +365,14 @@ theorem levels_hier (cfg : Cfg) (B : Job → Best) (n : Nat) (hm : 1 ≤ cfg.m)
 
 /-- the whole run: every node's id reads as the sides the Spec's recursion chooses -/
 theorem run_hier (cfg : Cfg) (B : Job → Best) (edges : List Edge) (n : Nat) (hm : 1 ≤ cfg.m) (hn : 2 ≤ n)
-    (hsrc : ∀ e ∈ edges, e.1 < n) (hbest : BestOK n (fun _ _ => B))
+    (hsrc : ∀ e ∈ edges, e.1 < n) (hsmall : 2 * edges.length + 6 < Tbx.Flow.INV)
+    (hbest : BestOK n (fun _ _ => B))
     (out : Array Nat × List (List Job)) (h : runWith cfg (fun _ _ => B) edges n = some out) :
     ∀ x, x < n → gt out.1 x =
       specId (specBest B) cfg.m cfg.r { edges := edges, ids := List.range n } x := by
   intro x hx
   unfold runWith at h
-  have hroot := root_queueOK edges n hn hsrc
+  have hroot := root_queueOK edges n hn hsrc hsmall
   have := (levels_hier cfg B n hm hbest cfg.r 0 (Array.replicate n 1)
     [([], { edges := edges, ids := List.range n })] out (by omega) (by simp) (by simpa using hroot)
     (by
